@@ -41,6 +41,19 @@ def match_known(v, known):
 
 
 def gate(v):
+    """native replay gate; tries the alternative embeddings of a scanner-level counterexample if the first does not confirm"""
+    st, det = gate1(v)
+    if st in ('confirmed',) or not v.get('alt_bufs'): return st, det
+    for alt in v['alt_bufs']:
+        v2 = dict(v); v2['buf'] = alt; v2.pop('alt_bufs', None)
+        st2, det2 = gate1(v2)
+        if st2 == 'confirmed':
+            v['buf'] = alt; det2['notes'].append('confirmed on an alternative embedding of the scanner input')
+            return st2, det2
+    return st, det
+
+
+def gate1(v):
     """native replay gate for one solver counterexample. returns ('confirmed'|'unconfirmable'|'mismatch', details)"""
     if v.get('rel'): return native.rel_gate(v)
     kind, api = v['kind'], v['api']
